@@ -20,8 +20,7 @@ func parseFile(rel string) *ast.File {
 	fset := token.NewFileSet()
 	f, err := parser.ParseFile(fset, filepath.Join(repo, rel), nil, 0)
 	if err != nil {
-		fmt.Fprintln(os.Stderr, "gotables:", err)
-		os.Exit(2)
+		panic(emitFail{err.Error()})
 	}
 	return f
 }
@@ -171,10 +170,13 @@ func selName(e ast.Expr) string {
 	return ""
 }
 
+// emitFail aborts ONE emitter: its Gen file is left as it was (stale) and the failure is reported
+// to the driver, which counts it against the properties whose proofs depend on that file only.
+type emitFail struct{ msg string }
+
 func must(ok bool, what string) {
 	if !ok {
-		fmt.Fprintln(os.Stderr, "gotables: cannot read", what)
-		os.Exit(2)
+		panic(emitFail{"cannot read " + what})
 	}
 }
 
@@ -275,8 +277,37 @@ func main() {
 		names = append(names, n)
 	}
 	sort.Strings(names)
+	failed := 0
 	for _, n := range names {
-		emitters[n]()
-		flush(outDir, n)
+		reason := runEmitter(n)
+		if reason == "" {
+			flush(outDir, n)
+			continue
+		}
+		out.Reset()
+		failed++
+		// one line per failed emitter on stdout: the driver decides which properties that concerns
+		fmt.Printf("EMITTER-FAILED\t%s\t%s\n", n, strings.ReplaceAll(reason, "\n", " "))
+		if _, err := os.Stat(filepath.Join(outDir, n+".v")); err != nil {
+			// no earlier version to keep: nothing can be built
+			fmt.Fprintln(os.Stderr, "gotables:", n, reason)
+			os.Exit(2)
+		}
 	}
+}
+
+// runEmitter runs one emitter and returns the reason of its failure ("" = ok). Any panic (an
+// unexpected shape of the syntax tree included) fails that emitter only.
+func runEmitter(n string) (reason string) {
+	defer func() {
+		if r := recover(); r != nil {
+			if f, ok := r.(emitFail); ok {
+				reason = f.msg
+			} else {
+				reason = fmt.Sprint("unexpected source shape: ", r)
+			}
+		}
+	}()
+	emitters[n]()
+	return ""
 }
